@@ -97,6 +97,9 @@ type chainCheckDef struct {
 	rule  string
 	// extra runs after the chain search (input-shard evaluators on the real keepers)
 	extra func(c *ev.Ctx)
+	// moreEnvs: further environments explored at depth envDepth (both tiers)
+	moreEnvs []EnvCfg
+	envDepth int
 }
 
 func registerChainCheck(d chainCheckDef) {
@@ -114,6 +117,11 @@ func registerChainCheck(d chainCheckDef) {
 			done := ""
 			for i, env := range envs {
 				cfg := &chainCfg{Name: fmt.Sprintf("%s-env%d", d.name, i), Env: env, Menu: d.menu(), Depth: depth, Want: d.want}
+				st := chainExplore(c, cfg)
+				done += chainDone(c, cfg, st)
+			}
+			for i, env := range d.moreEnvs {
+				cfg := &chainCfg{Name: fmt.Sprintf("%s-env%d", d.name, len(envs)+i), Env: env, Menu: d.menu(), Depth: d.envDepth, Want: d.want}
 				st := chainExplore(c, cfg)
 				done += chainDone(c, cfg, st)
 			}
@@ -137,7 +145,10 @@ func crossingEnv() EnvCfg {
 }
 
 func init() {
-	registerChainCheck(chainCheckDef{id: "C17", name: "supply", want: []string{"supply"}, depth: [2]int{3, 4},
+	// genesis without an explicit supply (derived by InitGenesis) and with coin-less accounts among the funded ones
+	derived := defaultEnv()
+	derived.Genesis = "default-supply"
+	registerChainCheck(chainCheckDef{id: "C17", name: "supply", want: []string{"supply"}, depth: [2]int{3, 4}, moreEnvs: []EnvCfg{derived}, envDepth: 2,
 		menu: func() []BlockSpec { return concatMenus(menuSends()[:4], menuNodes(), menuApps(), menuGov(), menuEnv()) },
 		rule: "Invariant: recorded total supply == sum of the balances of every account incl. module accounts, and every balance is canonical and non-negative, in every reachable state."})
 	// challenge / replay burns (reached on chain only through proofs of challenges or replayed relays): evaluated on
